@@ -88,9 +88,73 @@ def _digest(ss):
     return h.hexdigest()
 
 
+def _load_early_event(case):
+    """The case with its own timed events moved so that the first one happens at 0.1 s (a disturbance inside the short runs)."""
+    ss = load_case(case, setup=False)
+    times = []
+    for name in ("Toggle", "Fault", "Alter"):
+        mdl = ss.models[name]
+        for par in mdl.timer_params.values():
+            times += [float(v) for k, v in enumerate(par.v) if mdl.u.v[k] == 1 and float(v) > 0]
+    if times:
+        f = 0.1 / min(times)
+        for name in ("Toggle", "Fault", "Alter"):
+            mdl = ss.models[name]
+            for par in mdl.timer_params.values():
+                for k in range(mdl.n):
+                    if float(par.v[k]) > 0:
+                        par.v[k] = float(par.v[k]) * f
+    ss.setup()
+    return ss
+
+
+def interleave(sc):
+    """Two Systems used alternately in one process: the trajectory of the first must not depend on the second having been
+    solved in between (solver objects, cached factorisations and flags belong to one routine of one System)."""
+    import hashlib as _h
+
+    def setlib(ss):
+        for r in (ss.PFlow, ss.TDS, ss.EIG):
+            if sc["lib"] != "klu":
+                from andes.linsolvers.solverbase import Solver
+                r.solver = Solver(sparselib=sc["lib"])
+                r.config.sparselib = sc["lib"]
+        ss.TDS.config.no_tqdm = 1
+
+    def run_a(with_b):
+        a = _load_early_event(sc["case"])
+        setlib(a)
+        a.PFlow.run()
+        a.TDS.config.tf = 0.25
+        ok = bool(a.TDS.run(no_summary=True))
+        if with_b:
+            b = _load_early_event(sc["other"])
+            setlib(b)
+            b.PFlow.run()
+            b.TDS.config.tf = 0.15
+            b.TDS.run(no_summary=True)
+        a.TDS.config.tf = 0.6
+        ok = bool(a.TDS.run(no_summary=True)) and ok
+        return ok, np.hstack([a.dae.x, a.dae.y])
+    ev = []
+    try:
+        ok0, v0 = run_a(False)
+        ok1, v1 = run_a(True)
+        same = bool(ok0 == ok1)
+        ident = bool(same and v0.shape == v1.shape and np.array_equal(v0, v1))
+        ev.append(dict(e="config", routine="tds", same_success=same, close=ident, repeat_identical=ident,
+                       cfg="%s/two systems interleaved" % sc["lib"],
+                       dmax_ppb=int(min(2e9, np.max(np.abs(v1 - v0) / (1 + np.abs(v0))) * 1e9)) if v0.shape == v1.shape and len(v0) else 2000000000))
+    except Exception as ex:
+        ev.append(dict(e="config", routine="tds", same_success=False, close=False, repeat_identical=False,
+                       cfg="%s/two systems interleaved (raised %s)" % (sc["lib"], type(ex).__name__), dmax_ppb=2000000000))
+    return dict(meta=dict(tid=sc["tid"], sid=sc["sid"]), ev=ev)
+
+
 def routine_result(sc):
     """Run one routine under one configuration; returns the state vectors (lists) and a digest."""
-    ss = load_case(sc["case"], setup=True)
+    ss = _load_early_event(sc["case"])
+    ss.TDS.config.honest = int(sc.get("honest", 0))
     for r in (ss.PFlow, ss.TDS, ss.EIG):
         if sc["lib"] != "klu":
             from andes.linsolvers.solverbase import Solver
@@ -145,6 +209,6 @@ def config_product(sc):
         if cfg.get("repeat"):
             rep_ok = (fresh_process_digest(c) == r["digest"])
         ev.append(dict(e="config", routine=sc["routine"], same_success=same, close=close, repeat_identical=bool(rep_ok),
-                       cfg="%s/lin%d/ipadd%d/%s" % (cfg["lib"], cfg["linsolve"], cfg["ipadd"], cfg["method"]),
+                       cfg="%s/lin%d/ipadd%d/%s/honest%d" % (cfg["lib"], cfg["linsolve"], cfg["ipadd"], cfg["method"], cfg.get("honest", 0)),
                        dmax_ppb=int(min(2e9, (np.max(np.abs(v - v0) / (1 + np.abs(v0))) * 1e9) if len(v) == len(v0) and len(v) else 2e9))))
     return dict(meta=dict(tid=sc["tid"], sid=sc["sid"]), ev=ev)
